@@ -293,7 +293,7 @@ func checkC19(tier, replay string) int {
 	}
 	sort.Strings(un)
 	ctx.Cov["constant_names_without_oracle_value"] = un
-	ctx.Cov["rule"] = "every GOOS/GOARCH pair of `go tool dist list` is built (thorough: additionally vetted, informational) with an overlay-added file per package that asserts, for every constant declared in the files selected for that target, equality with the vendored Linux UAPI value (two array-index expressions that only compile if equal; ENOSYS is 89 on linux/mips*, 38 elsewhere); file selection (loader vs stub) from go list; the stubs are executed: a probe built for js/wasm runs under node with a preloaded hook that records every call into node's fs and process objects (the only system interface of such a program) while Supported, SetNoNewPrivs and 48 LoadFilter calls (no_new_privs x 4 flag words x 6 policies incl. invalid ones) run - Supported must be false and no host call may be recorded, a control window with a real getuid call shows that the hook sees calls and the same entry points are run natively under strace from a build in which, through an overlay, the files selected only for Linux are emptied and the files selected only for non-Linux targets (the stubs, according to go list for darwin) take their place: between two marker system calls no system call other than the Go runtime's own memory and scheduling calls may appear (only if neither execution is possible the stub file is judged by its syntax: no imports, no call expressions, Supported returns the literal false); GetInfo(goarch) for every GOARCH must have a table exactly for 386/amd64/arm/arm64; for every GOARCH a probe is built with an overlay that substitutes runtime.GOARCH in the library sources and run on the host: with the architecture left implicit, GetInfo(\"\") and Policy.Assemble must fail with an unsupported-architecture error on targets without tables and succeed on the four with tables; a program probe (700+ policies over all four tables: whole tables, three groups, all operations x all argument indices x operands) is built for the host and for GOARCH=386, both are run here, and every program digest must be identical; non-trivial = targets whose build with assertions succeeded"
+	ctx.Cov["rule"] = "every GOOS/GOARCH pair of `go tool dist list` is built (thorough: additionally vetted, informational) with an overlay-added file per package that asserts, for every constant declared in the files selected for that target, equality with the vendored Linux UAPI value (two array-index expressions that only compile if equal; ENOSYS is 89 on linux/mips*, 38 elsewhere); file selection (loader vs stub) from go list; the stubs are executed: a probe built for js/wasm runs under node with a preloaded hook that records every call into node's fs and process objects (the only system interface of such a program) while Supported, SetNoNewPrivs and 48 LoadFilter calls (no_new_privs x 4 flag words x 6 policies incl. invalid ones) run - Supported must be false and no host call may be recorded, a control window with a real getuid call shows that the hook sees calls and the same entry points are run natively under strace from a build in which, through an overlay, the files selected only for Linux are emptied and the files selected only for non-Linux targets (the stubs, according to go list for darwin) take their place: between two marker system calls no system call other than the Go runtime's own memory and scheduling calls may appear (only if neither execution is possible the stub file is judged by its syntax: no imports, no call expressions, Supported returns the literal false); GetInfo(goarch) for every GOARCH must have a table exactly for 386/amd64/arm/arm64; for every GOARCH a probe is built with an overlay that substitutes runtime.GOARCH in the library sources and run on the host: with the architecture left implicit (and, for two targets, with GOARCH/GOOS set to other values in the process environment, which must change nothing), GetInfo(\"\") and Policy.Assemble must fail with an unsupported-architecture error on targets without tables and succeed on the four with tables; a program probe (700+ policies over all four tables: whole tables, three groups, all operations x all argument indices x operands) is built for the host and for GOARCH=386, both are run here, and every program digest must be identical; non-trivial = targets whose build with assertions succeeded"
 	ctx.Sample(map[string]any{"target": "darwin/arm64", "assertion": "var _ = [1]struct{}{}[uint64(ActionAllow)-2147418112]"})
 	ctx.Assumptions = []string{"foreign targets are compiled and constant-evaluated by the real compiler, not executed", "vendored UAPI values from this image's linux/seccomp.h, linux/prctl.h, asm-generic/errno.h"}
 	return finishOrReplay(ctx, replay)
@@ -404,6 +404,18 @@ func c19ImplicitArch(ctx *evid.Ctx, repo, scratch string, archs []string, withTa
 		}
 		atomic.AddInt64(&done, 1)
 		rep := map[string]any{"goarch": ga, "probe": r}
+		// what the binary was built for decides, not what the environment of the running process says (GOARCH / GOOS are
+		// variables of the go tool, a built program must not care)
+		if ga == "amd64" || ga == "ppc64le" {
+			for _, ev := range [][]string{{"GOARCH=386"}, {"GOARCH=arm64", "GOOS=linux"}, {"GOARCH=ppc64le"}, {"GOARCH=amd64", "GOOS=plan9"}} {
+				cmd := exec.Command(bin)
+				cmd.Env = append(os.Environ(), ev...)
+				out2, err2 := cmd.Output()
+				if err2 != nil || string(bytes.TrimSpace(out2)) != string(bytes.TrimSpace(out)) {
+					ctx.Violation("C19:implicit-arch:environment:"+ga, fmt.Sprintf("a binary built for GOARCH %s behaves differently with %v in its environment: %s instead of %s (err %v)", ga, ev, clip(string(out2), 300), clip(string(out), 300), err2), map[string]any{"goarch": ga, "env": ev})
+				}
+			}
+		}
 		if withTable[ga] {
 			if r["getinfo_err"] != nil || r["default_only_err"] != nil || r["named_err"] != nil || r["named_again_err"] != nil || r["named_third_err"] != nil {
 				ctx.Violation("C19:implicit-arch:"+ga, fmt.Sprintf("a binary built for GOARCH %s fails although a syscall table exists: %v", ga, r), rep)
